@@ -1,21 +1,78 @@
-"""C02 - deductive part (see contracts/trs.py).  Everything else on C02's chain is either another property's proof
-(C07 gate contracts, C05/C11 inverse_circuit trace consistency, C12 splice lemmas, C01 compile) or [B-only]:
-the ghost invariant Sem(C) o G = id through _add_one_qubit_gate / _add_*_cnot / _time_reversed_measurement / solve, and totality
-(the protocol's completeness theorem), are decided by the bounded stand-in only."""
+"""C02 - deductive part (contracts/trs.py + contracts/trs_sync.py).
+
+Under contract (REAL bodies of graphiq/solvers/time_reversed_solver.py):
+  _change_pauli_type                  [P + F]  contracts/trs.py
+  _add_emitter_photon_cnot, _add_one_emitter_cnot, _add_measurement_cnot_and_reset
+                                      [P, graph fragment, real CircuitDAG.insert_at]  class, control/target registers and types, "Fixed" label
+                                      for the emission / measurement (indexed in node_dict, i.e. the label is on the object BEFORE insertion),
+                                      inserted on the FIRST edge of both wires
+  _add_one_qubit_gate                 [P, trace]  index -> (type, register); merge order W.operations + gate_list; identity -> removed / nothing;
+                                      else one wrapper first on the wire
+  _transform_generator_emitters, _single_out_emitter, _add_photon_absorption, _time_reversed_measurement
+                                      [P]  ghost invariant SYNC (every tableau gate is mirrored, in order, by its inverse circuit operation on
+                                      the same qubit; loops of symbolic trip count by induction - pyvc/invloop.py trace rule) + functional
+                                      postconditions on the selected generator (single Z on the chosen emitter; +Z_e with the sign repaired;
+                                      +Z_photon after absorption; +X_e X_photon after the time-reversed measurement)
+[B-only]: solve and _add_gates_from_str (composition of the helpers, rref / height bookkeeping, final inverse circuit), that solve ESTABLISHES
+the helpers' protocol preconditions, totality (the protocol's completeness theorem), Sem() of a DAG as a channel (T-commute)."""
 from __future__ import annotations
 
+import time
+
 from pyvc.driver import run_tasks
-from contracts import tasks_stab as TS, trs
+from vf.core import Obl
+from contracts import tasks_stab as TS, trs, trs_sync as X
 
 
 def deductive(tier="quick", seed=0):
     Call = TS.all_contracts()
-    d = run_tasks(trs.contracts_and_tasks(Call))
+    tasks = trs.contracts_and_tasks(Call) + X.leaf_tasks() + X.one_qubit_tasks() + X.sync_tasks(Call)
+    d = run_tasks(tasks)
     d.obligations.extend(trs.finite_obligations())
+    can = run_tasks(X.leaf_canaries() + X.one_qubit_canaries() + X.sync_canaries(Call))
+    d.errors.extend(can.errors)
+    d.canaries = TS.canary_summary(can)
+    t0 = time.time()
+    try:
+        rep = X.native_cross_check()
+        ok = rep["contract_post_holds"] and rep["contract_relation_holds"]
+        for c in d.canaries:
+            if "swapped-roles" in c["name"]:
+                c["replayed"] = bool(rep["contract_relation_holds"] and not rep["canary_relation_holds"])
+                c["native_replay"] = rep
+            if "sign-untouched" in c["name"]:
+                c["replayed"] = bool(rep["contract_post_holds"] and not rep["canary_sign_untouched_holds"])
+                c["native_replay"] = {k: rep[k] for k in ("input", "contract_post_holds", "canary_sign_untouched_holds")}
+        d.obligations.append(Obl(name="C02.F._single_out_emitter.native-cross-check", function=X.Q_SOE, kind="F", backend="exact",
+                                 status="discharged" if ok else "refuted", ms=(time.time() - t0) * 1000, detail="" if ok else str(rep)[:2000],
+                                 clause="one instrumented run of the real _single_out_emitter (1 photon, 3 emitters, generator -X Y Z): the generator "
+                                        "ends as +Z on the chosen emitter and every tableau CNOT (n_photon+c, n_photon+t) follows the circuit CNOT "
+                                        "(c, t) (sanity check of the recorder set-up and replay of two canaries; not part of the proof)",
+                                 witness=None if ok else rep, replayed=not ok))
+    except Exception as e:  # noqa: BLE001
+        d.notes.append(f"native cross-check of the sync canaries failed: {type(e).__name__}: {e}")
+    for c in d.canaries:
+        if c["refuted"] and not c["replayed"]:
+            d.notes.append(f"canary {c['name']} refuted (structural / trace contract: no input-dependent counter-model to replay)")
+    d.inlined = sorted(set(X.LEAF_INLINE) | set(TS.TABLEAU_ACCESSORS if hasattr(TS, "TABLEAU_ACCESSORS") else []) | {X.Q_FEI})
     d.trusted_base += [
         "[T-stab], [T-commute] (DESIGN 4.3); Li-Economou-Barnes completeness of the time-reversed protocol (totality of solve)",
-        "[B-only] _add_one_qubit_gate, _add_one_emitter_cnot, _add_emitter_photon_cnot, _add_measurement_cnot_and_reset, "
-        "_transform_generator_emitters, _single_out_emitter, _add_photon_absorption, _time_reversed_measurement, solve",
+        "[C07] gate contracts of transformation.py, [C03/C05] leftmost_nontrivial_index / one_pauli_type_finder / tab_row_sum contracts, "
+        "[C12] CircuitDAG edit primitives on fragments, [C20] simplify_local_clifford keeps the unitary up to phase: used through their contracts",
+        "[A] SolverBase._identify_noise / _wrap_noise return noise values (which ones is irrelevant for the noise-free statement; default "
+        "no-noise mapping in the leaf tasks); [A] OneQubitGateWrapper(...) holds operations / register / reg_type (constructor: C20)",
+        "[A] np.setdiff1d(a, [c]) = sorted unique elements of a other than c; np.where(cond) = np.nonzero(cond); M.any(axis=1) per-row "
+        "characterisation; ~ on that bool vector (models added in contracts/trs_sync.py, pyvc/models.py, pyvc/interp.py)",
+        "[rule] pyvc/invloop.py trace rule (trace_check) + indexed havoc: the events of ONE arbitrary iteration satisfy SYNC on their own; by "
+        "induction the loop's segment is a concatenation of SYNC segments (SYNC is closed under concatenation: matching is in order and "
+        "consumes whole pairs); what the havoc builds in (generator row as a function of the iteration index, bits) is proved by the invariant",
+        "[pre, protocol] _add_photon_absorption: the scan selects a generator that is non-trivial on photon_index and on some emitter and "
+        "trivial on all other photons; _time_reversed_measurement: some generator acts on emitters only, no generator is the identity; "
+        "_single_out_emitter / _transform_generator_emitters: their call-site preconditions are PROVED at the call sites inside the helpers, "
+        "that solve establishes the two protocol preconditions is [B-only]",
+        "[B-only] solve, _add_gates_from_str: composition of the helper contracts over the main loop, rref / height_func_list bookkeeping, "
+        "final inverse circuit (C11 trace consistency) and the circuit.validate / compile / metric tail",
+        "[B-only] Sem(C) of the DAG as a channel: 'first on both wires' => 'acts before everything already on those registers' (T-commute)",
     ]
     d.not_applicable_clauses += ["the solver never trips its own asserts (completeness of the protocol): algorithmic theorem, bounded only"]
     return d
